@@ -82,6 +82,8 @@ def flatten(events, inst):
         elif comp == "life":
             if ev == "fire":
                 out.append(rec(t="fire", site=e["event"], n=int(e.get("ord", 0))))
+            elif ev == "flap":
+                out.append(rec(t="flap", site=e["what"], n=int(e.get("k", 0))))
     return out
 
 
